@@ -92,6 +92,12 @@ def harness(grad_kind):
                                       layout=z3.If(COMPACT(lay), lay, KLAYOUT(lay)), val=to_z3(fill_value))
 
             @staticmethod
+            def empty_like(a, **k):
+                lay = heap.get("ndarray", "layout", a.ref)
+                return heap.new_array(shape=heap.get("ndarray", "shape", a.ref), dtype=heap.get("ndarray", "dtype", a.ref), base=0,
+                                      layout=z3.If(COMPACT(lay), lay, KLAYOUT(lay)), val=ctx.fresh("uninit", "real"))
+
+            @staticmethod
             def multiply(x, y, dtype=None, **k):
                 sx, sy = heap.get("ndarray", "shape", x.ref), heap.get("ndarray", "shape", y.ref)
                 if ctx.choose(2, "np.multiply broadcast") == 0:
@@ -99,7 +105,8 @@ def harness(grad_kind):
                     ctx.ghost["mul_raised"] = True
                     raise SymRaise(ExcInst(ValueError, ("operands could not be broadcast together",)))
                 shp = z3.If(sx == sy, sx, BSHAPE(sx, sy))
-                return heap.new_array(shape=shp, dtype=to_z3(dtype) if dtype is not None else ctx.fresh("dt", "int"), base=0, layout=CLAYOUT(shp),
+                # the memory layout of a ufunc's fresh output depends on the strides of all operands: left unconstrained
+                return heap.new_array(shape=shp, dtype=to_z3(dtype) if dtype is not None else ctx.fresh("dt", "int"), base=0, layout=ctx.fresh("lay", "int"),
                                       val=heap.get("ndarray", "val", x.ref) * heap.get("ndarray", "val", y.ref))
 
         RESIZEVAL = z3.Function("RESIZEVAL", z3.RealSort(), I, I, z3.RealSort())  # np.resize fills by cycling the flattened input
@@ -165,6 +172,7 @@ def harness(grad_kind):
             return []  # the sweep's effect on gradients is the callee's contract (C01.step); this loop only sequences the calls
 
         spec = LoopSpec(invariant=inv, modifies=("t",), heap_modifies=[])
+        spec.expect_iterable = (n, lambda j: TOPO[j])  # the sweep visits the whole topological order, front to back
         cfg.loop_specs[(f"{TB}:Tensor.backward", 0)] = spec
         # iteration over the deque = iteration over the sequence the collector produced
         orig_eval_for = interp.x_For
@@ -244,13 +252,17 @@ def harness(grad_kind):
         elif grad_kind == "scalar":
             ctx.oblige(f"{tag}.value_of_g", vl[seed] == grad, **meta)
             ctx.oblige(f"{tag}.C12.seed.fresh_owner", z3.And(seed > top0, bs[seed] == 0), **meta)
+            ctx.oblige(f"{tag}.C06.layout", z3.Implies(COMPACT(lay0[dself]), ly[seed] == lay0[dself]), **meta)
         else:
             ctx.oblige(f"{tag}.value_of_g", vl[seed] == val0[garr.ref], **meta)
+            # C06.I1': the stored gradient has the memory layout of the tensor's data, whatever the layout of the caller's seed
+            # (views of the terminal tensor take their gradient as the same view of this array)
+            ctx.oblige(f"{tag}.C06.layout", z3.Implies(COMPACT(lay0[dself]), ly[seed] == lay0[dself]), **meta)
             owned = z3.And(seed != garr.ref, bs[seed] == 0, seed > top0)
             ctx.oblige(f"{tag}.C12.seed.owned_not_callers_array", owned, kind="C12.seed", **meta)
             if any(f_.get("id") == "F6" for f_ in load_known_findings().get("findings", [])):
-                # known finding F6: region = the seed already has self's dtype and shape (asarray returns it as-is)
-                region = z3.And(dtype0[garr.ref] == dtype0[dself], shape0[garr.ref] == shape0[dself])
+                # known finding F6: region = the seed already has self's dtype, shape and memory layout (asarray returns it as-is and no layout copy is made)
+                region = z3.And(dtype0[garr.ref] == dtype0[dself], shape0[garr.ref] == shape0[dself], lay0[garr.ref] == lay0[dself])
                 ctx.oblige(f"{tag}.C12.seed.owned_not_callers_array.outside_F6", z3.Implies(z3.Not(region), owned), kind="C12.seed", **meta)
             ctx.oblige(f"{tag}.C12.seed.callers_array_unwritten", z3.And(vl[garr.ref] == val0[garr.ref], shp[garr.ref] == shape0[garr.ref], dt[garr.ref] == dtype0[garr.ref]), **meta)
         ctx.oblige(f"{tag}.C12.data_unwritten", vl[dself] == val0[dself], **meta)
